@@ -56,6 +56,16 @@ def run(ctx, rep):
     if getattr(d, 'flag_invariant_used', False):
         rep.assume('need_flush read as false while the flush mutex is held means that no metadata is dirty only in RAM '
                    '(the flag protocol decided by C18.1/C18.2)')
+        # the invariant is only as good as the protocol: its sweep half (C18.2, fault-free closure) is decided here as well,
+        # so that a flusher which reads its own cleared flag as "nothing dirty" is reported by this check too
+        rep.rule('C18.2', 'a function that stores need_flush := false starts a complete sweep of every metadata kind after the store '
+                          'on every path to an Ok return (the invariant the flag read under the flush mutex relies on)')
+        for (rule, site), (ok, detail) in sorted(d.obl.items()):
+            if rule == 'C18.2':
+                rep.ob(rule, site, ok, detail)
+        for key, v in sorted(d.viol.items()):
+            if v['rule'] == 'C18.2':
+                rep.violation(v['rule'], key, v['where'], v['msg'], {'path': v['chain']})
     # C05.1
     ex = d.exits.get('fsync_range', {})
     n = 0
@@ -135,6 +145,9 @@ def run(ctx, rep):
     _pops = evict.find_pops(f, P)
     evict.presence(f, rep, 'C05.8', _pops)
     evict.report(f, rep, 'C05.9', _pops)
+    # C05.10: a dirty slice dropped from the cache (instead of written back) is lost to every later flush + fsync
+    from . import c02
+    c02.drop_rule(f, rep, 'C05.10')
     impls = [im for im in f.impls if im.get('trait') == 'ops::Qcow2IoOps']
     rep.floor('Qcow2IoOps implementations', len(impls), 3)
     for im in impls:
